@@ -230,7 +230,7 @@ impl<
         &self,
         timestamp: Timestamp,
     ) -> Result<&shared::TzifLocalTimeType, &PosixTimeZone<ABBREV>> {
-        let timestamp = timestamp.as_second();
+        let timestamp = floor_second(timestamp);
         // This is guaranteed because we always push at least one transition.
         // This isn't guaranteed by TZif since it might have 0 transitions,
         // but we always add a "dummy" first transition with our minimum
@@ -389,7 +389,7 @@ impl<
         ts: Timestamp,
     ) -> Option<TimeZoneTransition> {
         assert!(!self.timestamps().is_empty(), "transitions is non-empty");
-        let mut timestamp = ts.as_second();
+        let mut timestamp = floor_second(ts);
         if ts.subsec_nanosecond() != 0 {
             timestamp = timestamp.saturating_add(1);
         }
@@ -443,7 +443,7 @@ impl<
         ts: Timestamp,
     ) -> Option<TimeZoneTransition> {
         assert!(!self.timestamps().is_empty(), "transitions is non-empty");
-        let timestamp = ts.as_second();
+        let timestamp = floor_second(ts);
         let search = self.timestamps().binary_search(&timestamp);
         let index = match search {
             Ok(i) => i.checked_add(1)?,
@@ -534,6 +534,22 @@ impl<
 
     fn infos(&self) -> &[shared::TzifTransitionInfo] {
         self.inner.transitions.infos.as_ref()
+    }
+}
+
+/// Returns the number of whole seconds since the Unix epoch for the given
+/// timestamp, rounded toward negative infinity.
+///
+/// `Timestamp::as_second` truncates toward zero, so for an instant before the
+/// Unix epoch with a non-zero fractional second, it returns the second *after*
+/// the instant. Transition lookups need the second at or before the instant.
+#[cfg(feature = "alloc")]
+fn floor_second(timestamp: Timestamp) -> i64 {
+    let second = timestamp.as_second();
+    if timestamp.subsec_nanosecond() < 0 {
+        second - 1
+    } else {
+        second
     }
 }
 
